@@ -14,6 +14,7 @@ import (
 type corruptCase struct {
 	Kind string `json:"kind"`
 	Text []int  `json:"text"`
+	Q    string `json:"q"` // MCTokens lines: the text itself
 	// statement cases (MCTyping / MCStmt lines)
 	Stmt *Stmt `json:"stmt"`
 }
@@ -60,6 +61,8 @@ func init() {
 			if cc.Stmt != nil {
 				cc.Stmt.fix()
 				q = cc.Stmt.Text()
+			} else if cc.Q != "" {
+				q = cc.Q
 			} else {
 				q = string(ib(cc.Text))
 			}
